@@ -105,7 +105,19 @@ def run(ctx, rep):
         bits = F.pointer_bits
         imax = (1 << (bits - 1)) - 1
         incs = [(b, B, bi, t, o) for (b, B, bi, t, cls, o) in atomics.sites(F) if cls == model.ATOMIC_RMW_ADD and atomics.receiver_is_count(F, B, t)]
-        if not incs:
+        # increments by compare-and-swap between two constants (`compare_exchange(1, 2, ..)`): bounded by construction - the count
+        # they leave behind is the constant `new`, which must be nowhere near the limit
+        cas = [(b, B, bi, t) for (b, B, bi, t, cls, o) in atomics.sites(F) if cls == model.ATOMIC_CAS and atomics.receiver_is_count(F, B, t)]
+        for b, B, bi, t in cas:
+            inc = atomics.cas_increment(t)
+            ik = b["key"] + "/cas-bounded"
+            if inc is None:
+                rep.bad("R-OVFGUARD", ik, "the count word is changed by a compare-and-swap whose operands are not constants with new > current: its effect on the count cannot be bounded", F.loc(b, t["span"]), tag)
+            elif inc[1] - inc[0] != 1 or inc[1] > imax:
+                rep.bad("R-OVFGUARD", ik, "the compare-and-swap moves the count from %d to %d: a clone adds exactly one owner, and stays below isize::MAX" % inc, F.loc(b, t["span"]), tag)
+            else:
+                rep.ok("R-OVFGUARD", ik, "%d -> %d" % inc, cfg=tag)
+        if not incs and not cas:
             rep.bad("R-FUNNEL", "increment-sites", "no increment site of the count word found in the crate (anchor lost)", None, tag)
         # (several sites are fine - a handle kind may increment in its own Clone - as long as *each* one is guarded: R-OVFGUARD below
         # is judged per site, and every clone entry point reaches exactly one increment)
@@ -202,8 +214,10 @@ def run(ctx, rep):
                     ok_edges, why = False, "past the limit the function can still %s: the overflow path must end the process (abort), not return or raise a catchable panic" % ("/".join(sorted("return" if x == "ret" else "unwind" for x in exits - {"div"})))
                 if B.reach(tgt) & make_bbs:
                     ok_edges, why = False, "a handle is constructed on the overflow branch"
-            for mb in make_bbs:
-                if sj not in dom.get(mb, set()):
+            # every path that performs *this* increment and goes on to construct the handle has passed the guard (a path that
+            # took another, bounded way to its count - a successful `compare_exchange(1, 2)` - does not come through here)
+            for p in A.paths[key]:
+                if bi in p.blocks and (set(p.blocks) & make_bbs) and sj not in p.blocks:
                     ok_edges, why = False, "the new handle is constructed on a path that does not pass the overflow guard"
             if not make_bbs:
                 # the guarded increment lives in a helper of its own (`fn acquire_ref(&self)`): the tripped edge cannot return
